@@ -31,7 +31,7 @@ COMPONENTS = {"real": ["setigen.slice.get_slice", "setigen.dedrift.dedrift", "se
               "stub": ["SimClock with jumps", "RefSigproc writer", "entropy seam"]}
 ASSUMPTIONS = ["slice bounds 0 <= l < r <= fchans, also spelled from the end of the band (negative)", "a de-drift row whose offset lies within 1e-9 of a rounding boundary is not judged, unless the offset is exactly k + 1/2 in every evaluation order (then round() means half to even)",
                "axes compared within 8 ulp of the largest frequency / time"]
-PROBES = ["slice_bounds_counted_from_the_end", "dedrift_exact_half_channel_tie", "parent_loaded_float32", "parent_has_waterfall", "derived_of_derived", "dedrift_negative", "dedrift_from_metadata",
+PROBES = ["dedrift_of_consolidated_frame_with_gaps", "slice_bounds_counted_from_the_end", "dedrift_exact_half_channel_tie", "parent_loaded_float32", "parent_has_waterfall", "derived_of_derived", "dedrift_negative", "dedrift_from_metadata",
           "dedrift_rejected_too_steep", "clock_jump", "spectrum_frame", "timeseries_frame", "dedrift_peak_checked", "normalised"]
 
 
@@ -90,7 +90,9 @@ def generate(rng, tier):
             ops.append({"op": "timeseries", "parent": parent, "mode": rng.choice(["mean", "sum"]), "normalize": rng.random() < 0.2})
     return {"seams": {"clock_origin": 1.7e9 + rng.randrange(10 ** 6), "clock_jitter_seed": rng.randrange(1 << 20),
                       "entropy_salt": rng.randrange(1 << 20), "scratch": "c17"},
-            "root": spec, "pre": pre, "ops": ops, "drift_px": drift_px}
+            "root": spec, "pre": pre, "ops": ops, "drift_px": drift_px,
+            "consolidated_dedrift": ({"gap": rng.choice([1, 5, 0.5, 40]), "px": rng.choice([0.4, 1.0, -1.0, -0.6, 0.5])}
+                                     if rng.random() < 0.15 else None)}
 
 
 def simplify(sc):
@@ -362,6 +364,39 @@ def execute(sc, ctx):
         if ctx.violations and ctx.stop_on_violation:
             return
     ctx.nontrivial = nder >= 2
+    cd = sc.get("consolidated_dedrift")
+    if cd and root.tchans >= 2 and not (ctx.violations and ctx.stop_on_violation):
+        # de-drifting a frame that came out of Cadence.consolidate() (time gaps between the observations): the statement
+        # shifts row i by round(|d|*i*dt/df) whatever the frame's time axis says
+        second = stg.Frame.from_data(root.df, root.dt, root.fch1, root.ascending, np.array(root.data[::-1], dtype=float) + 1.0,
+                                     t_start=root.t_start + root.tchans * root.dt + cd["gap"] * root.dt, seed=3)
+        first = stg.Frame.from_data(root.df, root.dt, root.fch1, root.ascending, np.array(root.data, dtype=float),
+                                    t_start=root.t_start, seed=4)
+        cons = stg.Cadence([first, second]).consolidate()
+        n = cons.fchans
+        rate = cd["px"] * cons.df / cons.dt
+        max_x = abs(rate) * cons.tchans * cons.dt / cons.df
+        if tie_class(rate, cons.tchans, cons.dt, cons.df) != "near" and int(np.round(max_x)) < n - 1:
+            ctx.op("consolidated_dedrift")
+            ctx.hit("dedrift_of_consolidated_frame_with_gaps")
+            cdata = np.array(cons.data, copy=True)
+            try:
+                dd = stg.dedrift(cons, drift_rate=rate)
+            except Exception as e:
+                ctx.violation("dedrift", "C17/dedrift/consolidated_parent/raises:%s" % type(e).__name__, repr(e))
+                dd = None
+            if dd is not None:
+                Wd = n - int(np.round(max_x))
+                ok = dd.data.shape == (cons.tchans, Wd)
+                for i in range(cons.tchans if ok else 0):
+                    if tie_class(rate, i, cons.dt, cons.df) == "near":
+                        continue
+                    off = int(np.round(abs(rate) * i * cons.dt / cons.df))
+                    want = cdata[i, off:off + Wd] if rate >= 0 else cdata[i, n - off - Wd:n - off]
+                    if not np.array_equal(dd.data[i], want):
+                        ok = False
+                        break
+                ctx.check(ok, "dedrift", "C17/dedrift/consolidated_parent/row_shift", "rows of a consolidated frame are not shifted by round(|d|*i*dt/df)")
     ctx.sim_time += root.tchans * root.dt
     ctx.fingerprint = [spec["route"], g["ascending"], sorted(o["op"] for o in sc["pre"]), sorted(kinds),
                        sorted({o.get("mode") for o in sc["ops"] if o["op"] == "dedrift"}, key=str),
